@@ -245,7 +245,7 @@ CLAIMS = {
         "coefficients on random matrices with the live states, the live dual frame reproducing random 4x4 matrices, Choi index order. "
         "PARTIAL (searched): pinv, sequence bookkeeping, weighted aggregation and the simulated segments — tomography.run + "
         "predict_final_state on held-out preparations and CPTP maps vs the partial trace of the dense evolution (L=2,3, one and two "
-        "segments, TJM and MCWF). Extended: aggregation/bookkeeping model (TomoAgg) with theorems and scripted-runner tie; several predictions per tensor; multi-segment MCWF. Read-only queries between predictions from one returned object.",
+        "segments, TJM and MCWF). Extended: aggregation/bookkeeping model (TomoAgg) with theorems and scripted-runner tie; several predictions per tensor; multi-segment MCWF. Read-only queries between predictions from one returned object. Prediction = dual-frame contraction for every held-out sequence (LinAlg/Multilinear.v).",
         COMMON_NOTE + "Axioms: standard-library real-number axioms.",
         "DESIGN.md §3 C17"),
 }
